@@ -36,7 +36,8 @@ structure State where
   index : List Nat := []            -- staged content
   work : List Nat := []             -- working tree
   entries : List Entry := []        -- working log of the current base, oldest first
-  initial : List (Nat × Nat) := []  -- INITIAL: (line number, session), bare line numbers
+  initial : List (Nat × Nat) := []  -- INITIAL: (line number, session)
+  initSnap : List Nat := []         -- the content INITIAL's line numbers refer to (recorded with it)
   notes : List Note := []           -- notes of the commits made so far, newest first
   log : List (List Nat × List Nat) := []   -- (content, parent content) of those commits, newest first
   deriving Repr
@@ -62,14 +63,14 @@ def initialAuthor (initial : List (Nat × Nat)) (i : Nat) : Author :=
   | none => none
 
 /-- the previous state a checkpoint diffs against: the latest entry, or — when the working log
-    has no entry yet — the current content with INITIAL claims applied by line number if there
-    are any, else HEAD with every line human. -/
+    has no entry yet — the content recorded with INITIAL, its claims applied by line number, if
+    there are any, else HEAD with every line human. -/
 def previous (st : State) : Entry :=
   match st.entries.getLast? with
   | some e => e
   | none =>
     if st.initial.isEmpty then ⟨st.head, st.head.map (fun _ => none)⟩
-    else ⟨st.work, (enum1 st.work).map (fun p => initialAuthor st.initial p.1)⟩
+    else ⟨st.initSnap, (enum1 st.initSnap).map (fun p => initialAuthor st.initial p.1)⟩
 
 /-- per-line authors after a checkpoint by `who`: a line whose id is in the previous snapshot
     keeps its author, every other line belongs to `who` -/
@@ -82,12 +83,13 @@ def checkpoint (st : State) (who : Author) : State :=
   if prev.snap = st.work && !(st.entries.isEmpty && !st.initial.isEmpty) then st
   else { st with entries := st.entries ++ [⟨st.work, checkpointAttr prev st.work who⟩] }
 
-/-- `from_just_working_log` at line level: the latest entry decides; with no entry, INITIAL by
-    line number on the current content -/
+/-- `from_just_working_log` at line level: the latest entry decides; with no entry, INITIAL on its
+    recorded content, carried over to the current content -/
 def effective (st : State) : List Author :=
   match st.entries.getLast? with
   | some e => checkpointAttr e st.work none     -- lines not in the snapshot: nobody's (human)
-  | none => (enum1 st.work).map (fun p => initialAuthor st.initial p.1)
+  | none =>
+    checkpointAttr ⟨st.initSnap, (enum1 st.initSnap).map (fun p => initialAuthor st.initial p.1)⟩ st.work none
 
 inductive Op where
   | humanEdit (ys : List Nat)          -- a person rewrites the file to `ys` (no report)
@@ -100,7 +102,8 @@ inductive Op where
 
 /-- commit of the index. The note lists, among the committed lines that the commit adds (id not in
     the old HEAD), those whose effective author is an AI session. AI lines of the working tree
-    that are not part of the commit become INITIAL at their working-tree line number.
+    that are not part of the commit become INITIAL at their working-tree line number, recorded
+    together with the working-tree content.
     (Idealised coordinates: the committed line number is the position in the index. The line
     number translation of the real code is the subject of C04's `split_coordinates` theorem.) -/
 def commitStep (st : State) : State :=
@@ -112,7 +115,7 @@ def commitStep (st : State) : State :=
   let pending : List (Nat × Nat) := (enum1 st.work).filterMap (fun (i, y) =>
     if st.index.contains y then none else (author y).map (fun s => (i, s)))
   { head := st.index, index := st.index, work := st.work, entries := [], initial := pending,
-    notes := note :: st.notes, log := (st.index, st.head) :: st.log }
+    initSnap := st.work, notes := note :: st.notes, log := (st.index, st.head) :: st.log }
 
 def step (st : State) : Op → State
   | .humanEdit ys => { st with work := ys }
